@@ -171,6 +171,11 @@ def triage_tsan(ctx, text, findings, stats, tag):
     for r in reps:
         if "data race" not in r["kind"] and "race" not in r["kind"]:
             continue
+        if r["hook_only"]:
+            # both accesses are inside verification-hook code (nlv_* helpers of the single-threaded VM hooks that are
+            # compiled into the daemon as well): an artefact of the instrumentation, not of the code under test
+            stats["tsan_hook_artifacts"] = stats.get("tsan_hook_artifacts", 0) + 1
+            continue
         site = set(r["funcs"][:12]) | set(r["globals"])
         f = L.match_finding(findings, defect="tsan_data_race", site=sorted(site))
         if f:
@@ -254,7 +259,7 @@ def run(ctx):
              "(corpus module, real client | raw socket, number of concurrent clients); scenarios (module multiset x arrival "
              "schedule) are the initial states of Vmd.tla/Vmd_c17_gen, concretised with client-unique modules",
         scenarios_generated=len(scens), rounds=stats["rounds"], lazy_launch_daemons=stats.get("lazy_daemons"),
-        tsan_reports=stats["tsan_reports"], known_hits=stats["known"],
+        tsan_reports=stats["tsan_reports"], tsan_hook_artifacts=stats.get("tsan_hook_artifacts", 0), known_hits=stats["known"],
         daemon_diagnostics_on_client_stderr=stats.get("daemon_diag_lines", 0),
         model=dict(cfg=main.__dict__.get("cfg", "Vmd_c17" if quick else "Vmd_c17_full"), depth=main.depth,
                    crc_lazy=dict(violated=mres["lazy"].violated, states=mres["lazy"].distinct, trace_len=len(mres["lazy"].trace)),
